@@ -232,6 +232,9 @@ func (s *xsim) tx(name string) (*pb.Transaction, error) {
 			tx.TxInputs = append(tx.TxInputs, proto.Clone(tx.TxInputs[len(tx.TxInputs)-1]).(*protos.TxInput))
 		}
 	}
+	if c.Bad == "dupfar" && len(tx.TxInputs) > 1 { // the first input once more after the others
+		tx.TxInputs = append(tx.TxInputs, proto.Clone(tx.TxInputs[0]).(*protos.TxInput))
+	}
 	if c.Bad == "coinbase" { // submitted on its own it claims to be a coinbase
 		tx.Coinbase = true
 	}
@@ -614,7 +617,10 @@ func (s *xsim) replica(b int) (fx.Ev, error) {
 	for x := b; x > 1; x = s.abs(s.blocks[x].PreHash) {
 		chain = append([]int{x}, chain...)
 	}
-	out := fx.Ev{"blockvalid": true}
+	// the replica follows the chain either by one walk to its tip (the engine's sync path) or block by block with
+	// PlayAndRepost right after each confirmation (alternating with the block number)
+	playMode := b%2 == 1
+	out := fx.Ev{"blockvalid": true, "mode": map[bool]string{true: "play", false: "walk"}[playMode]}
 	for _, x := range chain {
 		blk := proto.Clone(s.blocks[x]).(*pb.InternalBlock)
 		if x == b {
@@ -631,6 +637,19 @@ func (s *xsim) replica(b int) (fx.Ev, error) {
 			out["obs"] = s.project(nd)
 			return out, nil
 		}
+		if playMode {
+			if err := nd.State.PlayAndRepost(s.blocks[x].Blockid, false, false); err != nil {
+				out["res"] = "fail"
+				out["failed_at"] = x
+				out["obs"] = s.project(nd)
+				return out, nil
+			}
+		}
+	}
+	if playMode {
+		out["res"] = "ok"
+		out["obs"] = s.project(nd)
+		return out, nil
 	}
 	for len(s.recover) > 0 {
 		<-s.recover
